@@ -74,6 +74,8 @@ def lindblad(
 
     # 1. Initial State to Rho
     psi = initial_state.to_vec()
+    # to_vec() puts site 0 in the least significant position; the embedded operators put it leftmost
+    psi = psi.reshape([2] * num_sites).transpose(*reversed(range(num_sites))).reshape(-1)
     rho_initial = np.outer(psi, psi.conj())
 
     # 2. Convert Hamiltonian MPO to sparse matrix
